@@ -607,6 +607,9 @@ func (s *Server) serve(id int, nc net.Conn) {
 	}
 	preps := map[uint32]*prepared{}
 	nextID := uint32(0)
+	// MariaDB (10.2+): COM_STMT_EXECUTE with statement id 0xFFFFFFFF executes "the last statement prepared on this connection
+	// if no COM_STMT_PREPARE has failed since" (lastprep.go)
+	var last lastPrepared
 	for {
 		f, err := ReadFrame(c.r)
 		if err != nil {
@@ -670,6 +673,7 @@ func (s *Server) serve(id int, nc net.Conn) {
 			s.mu.Unlock()
 			nextID++
 			p := &prepared{id: nextID, sql: sql, long: map[int][]byte{}}
+			last.prepareBegins()
 			var cols []ColDef
 			if sc != nil {
 				s.record(rec)
@@ -706,6 +710,7 @@ func (s *Server) serve(id int, nc net.Conn) {
 				}
 			}
 			preps[p.id] = p
+			last.prepared(p)
 			c.send("PrepareOK", PrepareOK{StmtID: p.id, Columns: uint16(len(cols)), Params: uint16(p.nParams)}.Encode())
 			if p.nParams > 0 {
 				for i := 0; i < p.nParams; i++ {
@@ -733,6 +738,7 @@ func (s *Server) serve(id int, nc net.Conn) {
 			continue
 		case ComStmtClose:
 			if len(f.Payload) >= 5 {
+				last.closed(binary.LittleEndian.Uint32(f.Payload[1:]))
 				delete(preps, binary.LittleEndian.Uint32(f.Payload[1:]))
 			}
 			s.record(rec)
@@ -753,6 +759,9 @@ func (s *Server) serve(id int, nc net.Conn) {
 			var p *prepared
 			if len(f.Payload) >= 5 {
 				p = preps[binary.LittleEndian.Uint32(f.Payload[1:])]
+				if binary.LittleEndian.Uint32(f.Payload[1:]) == LastPreparedStmtID {
+					p = last.stmt
+				}
 			}
 			if p == nil {
 				s.record(rec)
